@@ -133,6 +133,31 @@ def ref_validated(typ, v):
     return v, v
 
 
+def refusable_values(typ):
+    """Ill-typed values for an attribute of that declared type, or None if txtorcon documents no validation
+    for it.  See must_refuse()."""
+    if typ in ("Integer", "SignedInteger", "Port", "TimeInterval", "DataSize"):
+        return st.sampled_from(["no", "Not a value", None, "x1", "4 KBytes", "10 MB", "1 hour", "1.5"])
+    if typ == "Boolean+Auto":
+        return st.sampled_from(["maybe", None, "auto", "True"])
+    if typ == "LineList":
+        return st.sampled_from([7, None, "notice stdout"])
+    return None
+
+
+def must_refuse(typ, v):
+    """True: neither Tor nor txtorcon's documented/tested validation can accept it (the repo's tests pin a
+    ValueError/TypeError for these).  False: Tor itself would take the value ('4 KBytes', 'auto', a bare line for a
+    list), so a TorConfig that accepts it is defensible - but if it refuses, nothing else may change."""
+    if typ in ("Integer", "SignedInteger", "Port", "TimeInterval", "DataSize"):
+        return v is None or v in ("no", "Not a value", "x1")
+    if typ == "Boolean+Auto":
+        return v is None or v == "maybe"
+    if typ == "LineList":
+        return v is None or isinstance(v, int)
+    raise ValueError(typ)
+
+
 def list_elements(typ):
     """One element a caller puts into a list-valued attribute."""
     if typ == "PortLines":
@@ -191,7 +216,15 @@ def option_record(draw, name, mode):
             elif state.endswith("alt"):
                 alt = draw(list_lines(typ, 1, 1))
     elif typ in ("CommaList", "RouterList"):
-        value = draw(list_lines(typ, 1 if mode == "c10" else 0, 4))
+        if mode == "c10":
+            value = draw(list_lines(typ, 1, 4))
+        else:
+            # set (empty / one / many items), or unset = bare answer, with or without a (one-line) default
+            state = draw(st.sampled_from(["set", "set", "set", "set+d", "unset", "unset+d", "unset+d"]))
+            if state.startswith("set"):
+                value = draw(list_lines(typ, 0, 4))
+            if state.endswith("+d"):
+                default = draw(st.one_of(list_lines(typ, 2, 4), list_lines(typ, 1, 4)))
     else:
         value = [draw(scalar_line(typ))]
         if draw(st.integers(0, 2)) == 0:
